@@ -402,7 +402,8 @@ impl TokioChildWrapper for SimChild {
         let notify = with_run(|r| {
             let c = &mut r.world.children[id as usize];
             let new_death = if sig == 9 {
-                Some((now, 1009))
+                // SIGKILL by signal() is as slow to take effect as by kill() (slow-death fault)
+                Some((now + c.spec.kill_lag, 1009))
             } else {
                 match c.spec.on_signal {
                     SigReact::Ignore => None,
